@@ -12,7 +12,7 @@ BOUNDS = {
              "8-triangle annulus and 10-triangle folded dumbbell: subsets of size <= 2; 3x3 torus (18 triangles): subsets of size <= 1; symbolic transposition of labels; singular set given as list, set or one-shot iterator; with and without an earlier cut of the same mesh object",
     "thorough": "annulus: every subset; torus: subsets of size <= 3",
 }
-OUTSIDE = ("feature constraints other than the sharp edges of a cube and of an open box; symbolic edge lengths (orderings of sums of radicals explode): coordinates are concrete and generic; surfaces of higher "
+OUTSIDE = ("feature constraints other than the sharp edges of a cube, of an open box and of a folded notched sheet; symbolic edge lengths (orderings of sums of radicals explode): coordinates are concrete and generic; surfaces of higher "
            "genus or more border loops")
 ASSUMPTIONS = ["input is a connected orientable triangulated manifold surface", "coordinates are fixed generic reals"]
 STUBS = []
@@ -49,7 +49,31 @@ BASES = {
     "openbox": (8, [(0, 2, 1), (0, 3, 2), (0, 1, 5), (0, 5, 4), (1, 2, 6), (1, 6, 5), (2, 3, 7), (2, 7, 6), (3, 0, 4), (3, 4, 7)]),
     "cube": (8, [(0, 2, 1), (0, 3, 2), (0, 1, 5), (0, 5, 4), (1, 2, 6), (1, 6, 5), (2, 3, 7), (2, 7, 6), (3, 0, 4), (3, 4, 7), (4, 5, 6), (4, 6, 7)]),
 }
+def _notched_fold():
+    """a 5 x 3 sheet of quads (split into triangles) folded along x = 4 (a crease from border to border with interior vertices)
+    with a two-quad notch (open to the top border) between the vertices of column 1 and the crease: every edge path from an interior vertex of
+    column 1 to the crease runs over border vertices (non-convex outline)"""
+    nx, ny = 5, 3
+    idx, coords, faces = {}, [], []
+
+    def vid(i, j):
+        if (i, j) not in idx:
+            idx[(i, j)] = len(coords)
+            coords.append((float(i), float(j) * 1.03, 1.5 * abs(i - 4)))
+        return idx[(i, j)]
+    for i in range(nx):
+        for j in range(ny):
+            if (i, j) in ((2, 1), (2, 2)):       # the notch, open to the top border
+                continue
+            a, b, c, d = vid(i, j), vid(i + 1, j), vid(i + 1, j + 1), vid(i, j + 1)
+            faces += [(a, b, c), (a, c, d)]
+    return len(coords), faces, coords
+
+
+_NF = _notched_fold()
+BASES["notched-fold"] = (_NF[0], _NF[1])
 COORDS = {
+    "notched-fold": _NF[2],
     "dumbbell": [(-0.5, 0, 0), (1, -1, 0), (1, 1.1, 0), (-1, 1, 0), (-1.1, -1, 0),
                  (-0.45, 0.05, 0.3), (1.1, -1, 0.3), (1, 1, 0.3), (-1, 1.05, 0.3), (-1, -1.1, 0.3)],
     "cube": [(-0.5, -0.5, -0.5), (0.5, -0.5, -0.5), (0.5, 0.5, -0.5), (-0.5, 0.5, -0.5), (-0.5, -0.5, 0.5), (0.5, -0.5, 0.5), (0.5, 0.5, 0.5), (-0.5, 0.5, 0.5)],
@@ -59,12 +83,12 @@ COORDS = {
 }
 
 
-def cut(name, max_sing=None, interior_features=False):
+def cut(name, max_sing=None, interior_features=False, relabel=True):
     def h(sx):
         from mouette.processing.cutting import SingularityCutter
         from mouette.processing.features import FeatureEdgeDetector
         V, faces = BASES[name]
-        p, q = sx.choice("swap_a", V), sx.choice("swap_b", V)
+        p, q = (sx.choice("swap_a", V), sx.choice("swap_b", V)) if relabel else (0, 0)
         sx.assume(p <= q)
         perm = list(range(V))
         perm[p], perm[q] = perm[q], perm[p]
@@ -73,9 +97,16 @@ def cut(name, max_sing=None, interior_features=False):
         coords = [None] * V
         for v in range(V):
             coords[perm[v]] = base_coords[v]
-        sing = [v for v in range(V) if sx.flag("singular%d" % v)]
-        if max_sing is not None:
-            sx.assume(len(sing) <= max_sing)
+        if V > 12 and max_sing is not None:
+            # (one flag per vertex would enumerate 2^V subsets before the size bound applies)
+            ns = sx.choice("n_singular", max_sing + 1)
+            picks = [sx.choice("singular_vertex%d" % i, V) for i in range(ns)]
+            sx.assume(all(picks[i] < picks[i + 1] for i in range(ns - 1)))
+            sing = list(picks)
+        else:
+            sing = [v for v in range(V) if sx.flag("singular%d" % v)]
+            if max_sing is not None:
+                sx.assume(len(sing) <= max_sing)
         form = sx.choice("singularities_given_as", 3)       # 0 list, 1 set, 2 one-shot iterator
         earlier = sx.flag("an_earlier_cut_on_the_same_mesh")
         with_detector = True if interior_features else sx.flag("with_border_feature_detector")
@@ -162,6 +193,8 @@ def obligations(tier):
                   note="cube with its 12 sharp edges detected as features (feature-aware code path)"))
     obs.append(Ob("cut-openbox-features", cut("openbox", 2 if q else 3, interior_features=True), covers=COVERS, split=8,
                   note="open box with its sharp edges as features: creases running from border to border"))
+    obs.append(Ob("cut-notched-fold-features", cut("notched-fold", 1 if q else 2, interior_features=True, relabel=False), covers=COVERS, split=6,
+                  note="folded sheet with a notch: a crease with interior vertices reaching the border, non-convex outline (fixed labelling)"))
     obs.append(Ob("cut-dumbbell", cut("dumbbell", 2), covers=COVERS, split=8,
                   note="two folded fans joined by a bridge: straight-line and along-the-surface distances rank the singularities differently"))
     obs.append(Ob("cut-annulus", cut("annulus", 2 if q else None), covers=COVERS, split=8, note="annulus"))
